@@ -18,7 +18,7 @@ emitted pair (the value blocks are produced in loop order while the pairs are so
 bug for every non-square / non-uniform input, whatever the values.  Nothing here decides numerical equality of the product.
 """
 import ast
-from ..core import RuleResult, Finding, AnalysisError, dotted, src, norm_construct, guarded, guarded_list
+from ..core import as_assert, RuleResult, Finding, AnalysisError, dotted, src, norm_construct, guarded, guarded_list
 from .. import paths
 
 OPS = 'pypose.sparse.ops'
@@ -40,10 +40,11 @@ def _layout_roles(fnode):
     """{param: 'row'|'col'} from `assert p.layout == torch.sparse_bsr or ...`"""
     roles = {}
     for st in fnode.body:
-        if not isinstance(st, ast.Assert):
+        tst = as_assert(st)
+        if tst is None:
             continue
         seen = {}
-        for c in ast.walk(st.test):
+        for c in ast.walk(tst):
             if isinstance(c, ast.Compare) and len(c.ops) == 1 and isinstance(c.ops[0], ast.Eq):
                 l, r = dotted(c.left) or '', dotted(c.comparators[0]) or ''
                 if l.endswith('.layout'):
